@@ -1,7 +1,7 @@
 INIT OInit
 NEXT ONext
 CONSTANTS
-  Hosts = {"h1", "h2"}
+  Hosts = {"h1", "h2", "h3"}
   Fps = {"f1", "f2"}
   Ops = {}
   DevReplaceClearsInOwnTxn = FALSE
